@@ -295,6 +295,29 @@ fn generate(cli: &Cli) -> Vec<Case> {
                             }
                         }
                     }
+                    // 3c. an empty frame (declared length 0, also in its two-byte spelling) in front of the
+                    // expected frame: a length that is not positive is refused, whatever follows
+                    for (zname, zero) in [("00", vec![0x00u8]), ("80-00", vec![0x80, 0x00]), ("00-00-00", vec![0, 0, 0])] {
+                        let mut bytes = zero.clone();
+                        bytes.extend_from_slice(&pos.frame);
+                        let sc_v = apply(&sc, pos, vec![Out::Frame(bytes)], false);
+                        out.push(Case { sc: sc_v, state: state.clone(), class: "empty-frame-in-front", detail: zname.into(), must_err: true, refuse_after: None, max_frame });
+                    }
+                    // 3b. the body ends one byte early (outer length adjusted): the last field is missing or
+                    // incomplete. Every packet but the plugin message (whose tail is free-form data) is
+                    // malformed then; Client Information also with its last field (a VarInt enum) over-long
+                    // (and the configuration-phase Cookie Response, which the router skips without looking inside)
+                    if inner.len() > 1 && !pos.state.contains("plugin-message") && !pos.state.contains("config-cookie-response") {
+                        let m = inner[..inner.len() - 1].to_vec();
+                        let sc_v = apply(&sc, pos, vec![Out::Frame(reframe(&m))], false);
+                        out.push(Case { sc: sc_v, state: state.clone(), class: "body-one-byte-short", detail: "last-field".into(), must_err: true, refuse_after: None, max_frame });
+                    }
+                    if pos.state.contains("client-information") && inner.len() > 2 {
+                        let mut m = inner[..inner.len() - 1].to_vec();
+                        m.extend_from_slice(&[0xff, 0xff, 0xff, 0xff, 0xff]);
+                        let sc_v = apply(&sc, pos, vec![Out::Frame(reframe(&m))], false);
+                        out.push(Case { sc: sc_v, state: state.clone(), class: "varint-field-fifth-byte-continues", detail: "particle-status".into(), must_err: true, refuse_after: None, max_frame });
+                    }
                     // 3a. a VarInt field of five bytes whose last byte still has the continuation bit
                     if pos.state == "handshake" && inner.len() > 3 {
                         // inner = id, protocol version (770 = 82 06), address, port, next state
